@@ -87,8 +87,10 @@ def pow_term(base, e):
     e = Fraction(e) if not isinstance(e, Fraction) else e
     if e.denominator == 1:
         n = int(e)
-        r = tm.ONE
-        for _ in range(abs(n)):
+        if n == 0:
+            return tm.ONE
+        r = base
+        for _ in range(abs(n) - 1):
             r = tm.mk('mul', r, base)
         return r if n >= 0 else tm.mk('div', tm.ONE, r)
     if e.denominator == 2 and tm.MODE == 'real':
